@@ -19,6 +19,12 @@ def run(ck, tier, seed):
     ok, info2 = fl.run_histories(ck, tmp, "mixed-histories", cfg, "FaceLifeTrace.cfg", exe)
     if not ok:
         return
+    # (b') feature-value objects come and go between the shaping calls (their addresses are reused): five operations
+    cfg = fl.write_cfg("_c08f_%d.cfg" % os.getpid(), Kinds='{"good"}', OptSet="{0, 7}", Texts="{1}", MaxOps=5,
+                       ClientOps='{"featval", "destroy_fval", "make_seg", "destroy_seg", "shape"}')
+    ok, info3 = fl.run_histories(ck, tmp, "feature-object-histories", cfg, "FaceLifeTrace.cfg", exe)
+    if not ok:
+        return
     # (c) corpus orders: every line of every corpus text shaped on one shared face in file order, in reverse order,
     #     and on a face of its own (cold); the three must agree line by line
     import corpus
